@@ -37,6 +37,15 @@ func NewSimpleFragmenterSized(fragmentSize int) *SimpleFragmenter {
 func (s *SimpleFragmenter) Fragment(orig []byte, ot TermLocations) []*Fragment {
 	var rv []*Fragment
 	maxbegin := 0
+	// ignore locations that cannot index orig (negative Start, End before Start):
+	// slicing with them panics
+	valid := make(TermLocations, 0, len(ot))
+	for _, tl := range ot {
+		if tl != nil && tl.Start >= 0 && tl.End >= tl.Start {
+			valid = append(valid, tl)
+		}
+	}
+	ot = valid
 OUTER:
 	for currTermIndex, termLocation := range ot {
 		// start with this
